@@ -1,49 +1,63 @@
 ------------------------------- MODULE Config -------------------------------
 (* One simulation, three spellings (ladim/configure.py).  A feature vector fv describes a simulation abstractly:
-     [cont, freq, extracol, pvars, diffusion, subgrid, gridsec, wildcard, optsec, adv]
+     [cont, freq, extracol, pvars, diffusion, subgrid, gridsec, wildcard, optsec, adv, ibm, xforce, v1files]
+   ibm: a user IBM (module given by path, one option) with its own instance variable "age" written to the output;
+   xforce: scalar forcing "temp" carried as a further instance variable (version 1 can only declare it through the IBM's variables);
+   v1files: the version 1 document names the forcing / grid files in its `files` section instead of `gridforce`
    Render*(fv) are the three configuration documents as nested records (what the harness writes to disk);
    Mean*(doc) is the meaning configure() must give to a document (defaults, v1 translation); Canon(fv) the intended
    canonical configuration.  MC_Config checks  Mean(Render(fv)) = Canon(fv)  for every feature vector.       *)
 EXTENDS Integers, Sequences, FiniteSets
 
-IVarsOut == <<"X", "Y", "Z", "pid">>
+IVarsOut(fv) == <<"X", "Y", "Z">> \o (IF fv.ibm THEN <<"age">> ELSE <<>>) \o <<"pid">> \o (IF fv.ibm /\ fv.xforce THEN <<"temp">> ELSE <<>>)   \* sorted
+StateIVars(fv) == IF ~fv.ibm THEN <<>> ELSE IF fv.xforce THEN <<"age", "temp">> ELSE <<"age">>
+XForcing(fv) == IF fv.ibm /\ fv.xforce THEN <<"temp">> ELSE <<>>
 PVarsOf(fv) == IF ~fv.pvars THEN <<>> ELSE IF fv.extracol THEN <<"farmid", "release_time">> ELSE <<"release_time">>
 Names(fv) == <<"mult", "release_time", "X", "Y", "Z">> \o (IF fv.extracol THEN <<"farmid">> ELSE <<>>)
 StatePVars(fv) == IF fv.extracol THEN <<"farmid", "release_time">> ELSE <<"release_time">>
 ForcingName(fv, First) == IF fv.wildcard THEN "f_*.nc" ELSE First
+GridOnly == "grid_only.nc"                       \* an explicitly named grid file is a file of its own (with another grid spacing)
 
-Canon(fv, First) == [ gridfile |-> First,                               \* explicit, or the (first) forcing file
+Canon(fv, First) == [ gridfile |-> IF fv.gridsec = "explicit" THEN GridOnly ELSE First,     \* explicit, or the (first) forcing file
                subgrid |-> fv.subgrid, forcing |-> ForcingName(fv, First), adv |-> fv.adv, diffusion |-> fv.diffusion,
                cont |-> fv.cont, freq |-> IF fv.cont THEN fv.freq ELSE 0, names |-> Names(fv),
-               state_pvars |-> StatePVars(fv), out_ivars |-> IVarsOut, out_pvars |-> PVarsOf(fv) ]
+               state_pvars |-> StatePVars(fv), out_ivars |-> IVarsOut(fv), out_pvars |-> PVarsOf(fv),
+               state_ivars |-> StateIVars(fv), has_ibm |-> fv.ibm, ibm_inc |-> IF fv.ibm THEN 2 ELSE 0, extra_forcing |-> XForcing(fv) ]
 
 \* ---- version 2 documents (YAML and TOML carry the same tree) -------------------------------------------------
 RenderV2(fv, First) ==
    [ has_grid |-> fv.gridsec # "omitted",
-     grid |-> [has_file |-> fv.gridsec = "explicit", file |-> First, subgrid |-> fv.subgrid /\ fv.gridsec # "omitted"],
-     forcing |-> [file |-> ForcingName(fv, First)],
+     grid |-> [has_file |-> fv.gridsec = "explicit", file |-> GridOnly, subgrid |-> fv.subgrid /\ fv.gridsec # "omitted"],
+     forcing |-> [file |-> ForcingName(fv, First), extra |-> XForcing(fv)],
      tracker |-> [adv |-> fv.adv, diffusion |-> fv.diffusion],
      release |-> [cont |-> fv.cont, freq |-> fv.freq, names |-> Names(fv)],
-     state |-> [pvars |-> StatePVars(fv)],
+     state |-> [pvars |-> StatePVars(fv), ivars |-> StateIVars(fv)],
      optional |-> fv.optsec,                                                     \* ibm / warm_start sections: present-empty or omitted
-     output |-> [ivars |-> IVarsOut, pvars |-> PVarsOf(fv)] ]
+     ibm |-> [has_module |-> fv.ibm, inc |-> IF fv.ibm THEN 2 ELSE 0],
+     output |-> [ivars |-> IVarsOut(fv), pvars |-> PVarsOf(fv)] ]
 MeanV2(d, First) ==          \* First = the first forcing file in name order (sorted glob)
    [ gridfile |-> IF d.has_grid /\ d.grid.has_file THEN d.grid.file ELSE First,
      subgrid |-> d.has_grid /\ d.grid.subgrid, forcing |-> d.forcing.file, adv |-> d.tracker.adv, diffusion |-> d.tracker.diffusion,
      cont |-> d.release.cont, freq |-> IF d.release.cont THEN d.release.freq ELSE 0, names |-> d.release.names,
-     state_pvars |-> d.state.pvars, out_ivars |-> d.output.ivars, out_pvars |-> d.output.pvars ]
+     state_pvars |-> d.state.pvars, out_ivars |-> d.output.ivars, out_pvars |-> d.output.pvars,
+     state_ivars |-> d.state.ivars, has_ibm |-> d.ibm.has_module, ibm_inc |-> d.ibm.inc, extra_forcing |-> d.forcing.extra ]
 
 \* ---- version 1 document and its translation -------------------------------------------------------------------
 RenderV1(fv, First) ==
-   [ gridforce |-> [input_file |-> ForcingName(fv, First), has_gridfile |-> fv.gridsec = "explicit", gridfile |-> First, subgrid |-> fv.subgrid /\ fv.gridsec # "omitted"],
+   [ gridforce |-> [has_input |-> ~fv.v1files, input_file |-> ForcingName(fv, First), has_gridfile |-> fv.gridsec = "explicit" /\ ~fv.v1files, gridfile |-> GridOnly,
+                    subgrid |-> fv.subgrid /\ fv.gridsec # "omitted", extra_forcing |-> XForcing(fv)],
+     files |-> [has_input |-> fv.v1files, input_file |-> ForcingName(fv, First), has_gridfile |-> fv.gridsec = "explicit" /\ fv.v1files, gridfile |-> GridOnly],
+     ibm |-> [present |-> fv.ibm \/ fv.optsec = "present", has_module |-> fv.ibm, variables |-> StateIVars(fv), inc |-> IF fv.ibm THEN 2 ELSE 0],
      numerics |-> [adv |-> fv.adv, diffusion |-> fv.diffusion],
      particle_release |-> [variables |-> Names(fv), continuous |-> fv.cont, freq |-> fv.freq, particle_variables |-> StatePVars(fv)],
-     has_ibm |-> fv.optsec = "present",
-     output_variables |-> [instance |-> IVarsOut, particle |-> PVarsOf(fv)] ]
+     output_variables |-> [instance |-> IVarsOut(fv), particle |-> PVarsOf(fv)] ]
 MeanV1(d, First) ==
-   [ gridfile |-> IF d.gridforce.has_gridfile THEN d.gridforce.gridfile ELSE First,
-     subgrid |-> d.gridforce.subgrid, forcing |-> d.gridforce.input_file, adv |-> d.numerics.adv, diffusion |-> d.numerics.diffusion,
+   [ gridfile |-> IF d.gridforce.has_gridfile THEN d.gridforce.gridfile ELSE IF d.files.has_gridfile THEN d.files.gridfile ELSE First,
+     subgrid |-> d.gridforce.subgrid, forcing |-> IF d.gridforce.has_input THEN d.gridforce.input_file ELSE d.files.input_file, adv |-> d.numerics.adv, diffusion |-> d.numerics.diffusion,
      cont |-> d.particle_release.continuous, freq |-> IF d.particle_release.continuous THEN d.particle_release.freq ELSE 0,
      names |-> d.particle_release.variables, state_pvars |-> d.particle_release.particle_variables,
-     out_ivars |-> d.output_variables.instance, out_pvars |-> d.output_variables.particle ]
+     out_ivars |-> d.output_variables.instance, out_pvars |-> d.output_variables.particle,
+     \* version 1 declares instance variables through the IBM's `variables` (float, default 0)
+     state_ivars |-> IF d.ibm.present THEN d.ibm.variables ELSE <<>>, has_ibm |-> d.ibm.present /\ d.ibm.has_module,
+     ibm_inc |-> IF d.ibm.present THEN d.ibm.inc ELSE 0, extra_forcing |-> d.gridforce.extra_forcing ]
 =============================================================================
